@@ -90,7 +90,9 @@ fn handle_faucet_tx<C: ContentAddrStore>(
         }
         // We do not insert the pseudocoin if this transaction is the one transaction that was buggy, in block 1214212, on the mainnet.
         // Back then, we were buggy in two ways: we allowed mainnet faucets accidentally, and we didn't insert the dedup pseudocoin properly!
-        if !bug_compatible_with_inflation_exploit {
+        // That compatibility only matters where it happened: on every other network the transaction
+        // is an ordinary faucet and gets its dedup pseudocoin, or it could be replayed in every block.
+        if !(bug_compatible_with_inflation_exploit && state.network == NetID::Mainnet) {
             state.coins.insert_coin(
                 pseudocoin,
                 CoinDataHeight {
